@@ -2,7 +2,7 @@
    `exact`, so it is checked to be convertible with it); proofs in RcP.v (strong side) and RcWeakP.v (weak side) *)
 From Coq Require Import ZArith List Bool Lia Arith.
 Import ListNotations.
-Require Import Params StateW DisposeW Rc RcSpec RcP RcWeakP.
+Require Import Params StateW DisposeW ModularW RcSnapCheck RcSnapP RcSnapInvP RcWSnapInvP Rc RcSpec RcP RcWeakP.
 Local Open Scope Z_scope.
 
 Theorem C05_destructed_is_final :
@@ -30,4 +30,36 @@ Theorem C05_monotone_needs_bounds :
   ~ C05_monotone_unbounded.
 Proof. exact RcP.C05_monotone_needs_bounds. Qed.
 Print Assumptions C05_monotone_needs_bounds.
+
+
+(* ---- FINAL FORM (RcWSnapInvP.v): the same statements under run_ok only - fresh start, well-formed programs
+   (cellops_ok, bounded_run) and the run hypotheses H2 pinned / H3 scoped, wscoped / epoch < 2^62; the former hypothesis
+   live_counted (scounted_ok, wcounted_ok = finding F5, wlive_ok) is now a THEOREM (C02_count_hypotheses_discharged) *)
+Theorem C05_monotone_final :
+  forall (s0 : state) (sched : list (nat * list Z)) (t : nat) (rec : list Z) (s' : state) (obs : list Z),
+       run_ok s0 sched ->
+       let s := mrun s0 sched in
+       micro s t rec = Some (s', obs) ->
+       bounded s' ->
+       forall (o : nat) (ob ob' : obj),
+       geto s o = Some ob ->
+       geto s' o = Some ob' -> destructed (word ob) = true -> destructed (word ob') = true.
+Proof. exact RcWSnapInvP.C05_monotone_final. Qed.
+Print Assumptions C05_monotone_final.
+
+Theorem C05_upgrade_final :
+  forall (s0 : state) (sched : list (nat * list Z)) (t : nat) (rec : list Z) 
+         (s' : state) (obs : list Z) (x : thr) (o : nat) (c : cont) (k : list frame),
+       run_ok s0 sched ->
+       let s := mrun s0 sched in
+       gett s t = Some x ->
+       frames x = FIncS100 o c :: k \/ frames x = FIncS101 o c :: k ->
+       micro s t rec = Some (s', obs) ->
+       forall (ob : obj) (x' : thr),
+       geto s o = Some ob ->
+       gett s' t = Some x' ->
+       (frames x' = FRet c false :: k <-> destructed (word ob) = true) /\
+       (0 < owners s o -> frames x = FIncS100 o c :: k -> frames x' = FRet c true :: k).
+Proof. exact RcWSnapInvP.C05_upgrade_final. Qed.
+Print Assumptions C05_upgrade_final.
 
